@@ -1299,6 +1299,15 @@ func main() {
 			}
 		}
 	}
+	// 6. a real Session over an in-memory peer: the frames Conn.startup / UseKeyspace / prepareStatement /
+	// executeQuery / executeBatch put on the wire, decoded by the specification
+	nsess := 150
+	if tier == "thorough" {
+		nsess = 3000
+	}
+	for i := 0; i < nsess; i++ {
+		g.sessionScenario(i)
+	}
 	out.Close(map[string]interface{}{"tier": tier})
 	if os.Getenv("VERIF_C03_DIST") != "" {
 		for k, v := range out.Dist {
